@@ -11,6 +11,9 @@ import (
 	"verifharness/refts"
 )
 
+// offsets (seconds east of UTC) of the locations times are encoded from
+var encodeZones = []int{3600, -3600, 2 * 3600, -5 * 3600, 19800, 20700, -12600, 14 * 3600, -12 * 3600, 9 * 3600, 45 * 60, -1, 1, 12*3600 + 45*60}
+
 func init() {
 	register(&Prop{
 		ID:    "C15",
@@ -73,6 +76,16 @@ func runC15(c *mon.Ctx) {
 	encode := func(stage string, idx int64, mjd, sec, ns int) {
 		t := epoch.AddDate(0, 0, mjd).Add(time.Duration(sec)*time.Second + time.Duration(ns))
 		want := refts.EncodeDVBTime(t)
+		// the same instant as a caller may hold it: in any location (time.Now() is local). "Encoding any time.Time" is about the
+		// instant, the five bytes are its UTC date and time
+		if z := (mjd + sec) % 3; z != 0 {
+			off := encodeZones[(mjd*7+sec)%len(encodeZones)]
+			t = t.In(time.FixedZone("z", off))
+			c.Count("encoded_from_a_non_utc_location")
+			if t.Day() != t.UTC().Day() {
+				c.Count("encoded_with_local_date_differing_from_utc_date")
+			}
+		}
 		var got []byte
 		var n int
 		var err error
